@@ -202,6 +202,9 @@ def main(argv=None):
     ap.add_argument("--nproc", type=int, default=NPROC)
     args = ap.parse_args(argv)
     _ensure_env()
+    import faulthandler, signal
+
+    faulthandler.register(signal.SIGUSR1, all_threads=True)  # kill -USR1 <pid> dumps the stacks
     sys.path.insert(0, VERIF)
     seed = int(os.environ.get("VERIF_SEED", "0") or 0)
     tier = args.tier if args.tier in ("quick", "thorough") else "quick"
